@@ -126,18 +126,21 @@ CLAIMED["C10"] = (T_WP + " plus a bounded stand-in that carries known finding F1
   "The end-cap construction itself is broken on the current tree (known finding F12: no cap is ever built); a bounded exhaustive stand-in shows it and is recorded, not counted as proved.",
   "Known finding F12 is the substance of this property for 2-point strokes; containment clauses undecided.",
   "DESIGN.md section 4, C10")
-CLAIMED["C06"] = (T_WP + " for the location / intersection primitives and the fast paths; bounded stand-in for the region clause (carries known finding F30)",
+CLAIMED["C06"] = (T_WP + " for the location / intersection primitives, the fast paths and the index safety of the path walk; bounded exhaustive stand-in for the region clause",
   "Proved for all inputs: getLocation's total specification (on the boundary iff not ok, which side, strictly inside); getSegmentIntersection reports a touching intersection only if the point lies on the rectangle edge segment and reports none when both end points are strictly on one side; "
   "paths whose vertices all lie inside the rectangle are returned unchanged and paths entirely on one outer side vanish (RectClip64.Execute, using the exact getBounds contract after the F1 repair); an empty rectangle gives an empty result; "
-  "NewRectClip64 wires rect and rectPath. Bounded (exhaustive, labelled): every output vertex within 1 unit of the rectangle; fast paths. The winding clause FAILS on about 5% of small polygons: known finding F30 (the rectangle clipper port is defective), recorded with a witness.",
-  "Known finding F30 is recorded rather than repaired (multi-part repair). The state machine executeInternal and the edge post-pass are not under contract.",
-  "DESIGN.md section 4, C06")
-CLAIMED["C11"] = (T_WP + " for the shared primitives; bounded stand-in carrying known finding F6",
-  "Proved: the primitives shared with C06 (getLocation, getSegmentIntersection, NewRectClip64 incl. the line path extractor being passed on, wrapper RectClipLinesPaths64 empty cases). "
-  "Bounded (exhaustive over 2-3 point lines on a grid): output vertices stay within 1 unit of the rectangle. The clauses 'vertices lie on the input line', 'a two-point segment is not dropped', 'lines are never closed up' FAIL: known finding F6 "
-  "(RectClipLines64 has no Execute of its own, the polygon algorithm runs on lines), recorded with witnesses.",
-  "Known finding F6 is the substance of this property.",
-  "DESIGN.md section 4, C11")
+  "NewRectClip64 wires rect and rectPath; every index expression of executeInternal, getNextLocation, getIntersection, addCorner, addCornerLocation is in range (under the listed assumption that corner locations are sides). "
+  "Bounded (exhaustive, labelled, not counted as proved): every output vertex within 1 unit of the rectangle; fast paths; the winding clause for every 3-4 vertex (thorough: 3-5 vertex, 30.5 million cases) polygon of a 5x5 grid against three rectangles. "
+  "That stand-in found the port defects F30a-d (constant prevCrossLoc, stale edge-list copies, horizontal overlap test on vertical edges, wrong seed of checkEdges), which are repaired (fix: commits); it now passes with no failure.",
+  "The winding clause itself is decided only up to the bound. checkEdges / tidyEdgePair (the edge post-pass) are not under contract. 'sideLoc' of corner locations is assumed (follows from a completeness argument about getIntersection that is not proved).",
+  "DESIGN.md section 4, C06 and section 10.3")
+CLAIMED["C11"] = (T_WP + " for the shared primitives and the line walk's index safety; bounded exhaustive stand-in for the coverage clauses",
+  "Proved: the primitives shared with C06 (getLocation, getSegmentIntersection, getIntersection, getNextLocation), NewRectClip64 incl. the line path extractor being passed on, wrapper RectClipLinesPaths64 empty cases and its composition with RectClipLines64.Execute, "
+  "every index expression of executeInternalPath64 in range for every open path (this obligation is what the F6a repair restores), RectClipLines64.Execute panic-free. "
+  "Bounded (exhaustive over 2-3 point, thorough 2-4 point, lines on a grid against three rectangles; labelled, not counted as proved): output vertices within 1 unit of the rectangle and of the input line, two-point segments kept, lines never closed up, "
+  "and coverage (eighth-points of every input segment more than 2 units from the rectangle boundary are covered exactly when inside). The stand-in found F6a-c (RectClipLines64 ran the polygon clipper; two-point pieces dropped; look-ahead index panic), all repaired.",
+  "Coverage and order of the output are decided only up to the bound.",
+  "DESIGN.md section 4, C11 and section 10.3")
 
 NOT_APPLICABLE = {
 }
